@@ -23,7 +23,7 @@ import typing as t
 from hypothesis import strategies as st
 from hypothesis.stateful import RuleBasedStateMachine, rule, precondition, initialize
 
-from ..core import Suite, Ctx, triage_exception
+from ..core import Suite, Ctx, HarnessError, triage_exception
 from .. import tg, cg, gen
 from ..same import same
 from ..codec import short
@@ -733,6 +733,84 @@ def check_keycache(case: t.Any, ctx: Ctx) -> None:
         ctx.fail('keycache-transparent', 'unbounded-recomputes', f"unbounded cache recomputed: {ncalls[0]} calls of f for {len(set(calls))} distinct arguments")
 
 
+# ---- the text of a refusal, in a fresh interpreter with and without an earlier conversion ---------------------------------------
+#
+# "The outcome ... depends only on those three things": a refusal's message is part of the outcome.  typing hands out one object for
+# every spelling of ``List[int]``, so one memoised converter serves it bare, as an element, as a mapping value, as a union member; what
+# it says about itself must not depend on who asked first.  History-free reference: the same conversion alone in a new interpreter.
+
+TEXT_PAIRS = [
+    ("t.List[int]", 5), ("t.Dict[str, t.List[int]]", 5), ("t.Dict[str, t.List[int]]", {'a': 5}), ("t.List[t.List[int]]", [5]), ("t.List[t.List[int]]", 5),
+    ("t.Optional[t.List[int]]", 5), ("t.Tuple[t.List[int], int]", [5, 5]), ("t.Tuple[t.List[int], int]", 'x'),
+    ("t.Dict[str, int]", 5), ("t.List[t.Dict[str, int]]", 5), ("t.List[t.Dict[str, int]]", [5]), ("t.Union[t.Dict[str, int], t.List[int]]", 5),
+    ("t.Set[str]", 5), ("t.List[t.Set[str]]", 5), ("t.Tuple[int, ...]", 'x'), ("t.List[t.Tuple[int, ...]]", 5),
+    ("t.Dict[str, t.Tuple[int, str]]", 5), ("t.Tuple[int, str]", 5), ("t.List[t.Optional[int]]", 5), ("t.Optional[int]", 'x'),
+]
+_TEXT_ALONE: t.Dict[int, t.Any] = {}
+_TEXT_SCRIPT = r'''
+import sys, json, warnings
+warnings.simplefilter('ignore')
+import typing as t
+import pane
+pairs = json.loads(sys.argv[1]); order = json.loads(sys.argv[2]); out = []
+for i in order:
+    (src, v) = pairs[i]
+    T = eval(src)
+    try:
+        r = pane.from_data(v, T); out.append([i, 'ok', repr(r)])
+    except pane.ConvertError as e:
+        out.append([i, 'ce', str(e), repr(e.tree)])
+    except Exception as e:
+        out.append([i, 'exc', type(e).__name__ + ': ' + str(e)])
+print(json.dumps(out))
+'''
+
+
+def _text_run(order: t.List[int]) -> t.Any:
+    import json
+    import subprocess
+    import sys
+    r = subprocess.run([sys.executable, '-c', _TEXT_SCRIPT, json.dumps(TEXT_PAIRS), json.dumps(order)], capture_output=True, text=True, timeout=300)
+    if r.returncode != 0:
+        raise HarnessError(f"child interpreter failed: {r.stderr[-500:]}")
+    return json.loads(r.stdout.strip().splitlines()[-1])
+
+
+def text_cases(shard: int, nshards: int) -> t.Iterator[t.Any]:
+    n = len(TEXT_PAIRS)
+    for i in range(n):
+        if i % nshards == shard:
+            yield [i]
+
+
+_SHARED = ['t.List[int]', 't.Dict[str, int]', 't.Set[str]', 't.Tuple[int, ...]', 't.Tuple[int, str]', 't.Optional[int]']
+
+
+def check_text_related(case: t.Any, ctx: Ctx) -> None:
+    check_text(case, ctx, related_only=True)
+
+
+def check_text(case: t.Any, ctx: Ctx, related_only: bool = False) -> None:
+    (i,) = case
+    n = len(TEXT_PAIRS)
+    ctx.label('refusal-text')
+    ctx.nontrivial(True)
+    alone = _text_run([i])[0][1:]
+    # after every other conversion of the table (one child interpreter per predecessor), and after all of them
+    others = [j for j in range(n) if j != i]
+    # (quick tier: single predecessors only where the two types share a sub-type object; the two runs after all the others always)
+    singles = [j for j in others if not related_only or any(sh in TEXT_PAIRS[i][0] and sh in TEXT_PAIRS[j][0] for sh in _SHARED)]
+    for order in [*([j, i] for j in singles), [*others, i], [*reversed(others), i]]:
+        ctx.evaluated()
+        got = _text_run(order)[-1][1:]
+        if got != alone:
+            (src, v) = TEXT_PAIRS[i]
+            before = [TEXT_PAIRS[j] for j in order[:-1]]
+            ctx.fail('history-independent', 'refusal-text', f"from_data({v!r}, {src}) alone in a fresh interpreter: {alone}; in a fresh interpreter after "
+                     f"{before if len(before) <= 2 else str(len(before)) + ' other conversions of the table'}: {got}")
+            return
+
+
 def suites(tier: str) -> t.List[Suite]:
     big = tier == 'thorough'
     steps = 120 if big else 50
@@ -742,5 +820,6 @@ def suites(tier: str) -> t.List[Suite]:
         Suite('tagged-union-reused', check_reuse, cases=reuse_cases, exhaustive=True, budget_s=20, render=lambda c: {'layout': c[0], 'first use': c[1]}),
         Suite('forward-reference', check_forward_ref, cases=fwd_cases, exhaustive=True, budget_s=20, render=lambda c: {'n': c[0]}),
         Suite('register-after-use', check_register, cases=register_cases, exhaustive=True, budget_s=30, render=lambda c: {'registration': c[0]}),
+        Suite('refusal-text', check_text if big else check_text_related, cases=text_cases, exhaustive=True, budget_s=300, render=lambda c: {'type': TEXT_PAIRS[c[0]][0], 'value': TEXT_PAIRS[c[0]][1]}),
         Suite('keycache', check_keycache, strategy=keycache_cases, examples=3000 if big else 300, budget_s=60),
     ]
